@@ -60,8 +60,27 @@ func uvsOrYield(names []string) string {
 				return "uvs"
 			}
 		case "T_OBJECT_OPERATOR", "T_PAAMAYIM_NEKUDOTAYIM":
+			// `$a->$b`, `$a->{expr}`, `A::$b()`: the same in both languages unless an offset follows the member name
+			// (`$a->$b['x']` is `$a->{$b['x']}` in PHP 5 and `($a->$b)['x']` in PHP 7)
 			if i+1 < len(names) && (names[i+1] == "T_VARIABLE" || names[i+1] == "'$'" || names[i+1] == "'{'") {
-				return "uvs"
+				j := i + 2
+				if names[i+1] == "'{'" {
+					depth := 1
+					for j < len(names) && depth > 0 {
+						switch names[j] {
+						case "'{'", "T_CURLY_OPEN", "T_DOLLAR_OPEN_CURLY_BRACES":
+							depth++
+						case "'}'":
+							depth--
+						}
+						j++
+					}
+				} else if names[i+1] == "'$'" {
+					return "uvs"
+				}
+				if j < len(names) && (names[j] == "'['" || names[j] == "'{'") {
+					return "uvs"
+				}
 			}
 		case "T_YIELD", "T_YIELD_FROM":
 			// only the statement forms `yield;`, `yield X;`, `$v = yield …;` with a plain operand are shared;
